@@ -31,8 +31,8 @@ Definition recurrence_prev_ok (enum : list Z) (rprev : Z -> option Z) : Prop :=
    (caches filling up and being evicted along the way) is the enumeration-level
    answer [spec_answer]: membership in (enum minus exclusions), least such
    point > p / >= p, greatest < p, first, last.  [fwd_domain]: all queries
-   except the prev ones, get_next_point_on_sequence on a point of the
-   recurrence, get_stop_point outside the defect of theorem 4;
+   except the prev ones (get_next_point_on_sequence: on a point of the
+   recurrence);
    [prev_domain]: get_prev_point on a point of the recurrence and
    get_nearest_prev_point anywhere, under [recurrence_prev_ok]. *)
 Theorem c17_api_vs_enumeration :
@@ -41,7 +41,7 @@ Theorem c17_api_vs_enumeration :
   forall qs i q a,
   nth_error qs i = Some q ->
   nth_error (run_all enum complete bounded rnext rprev rvalid excl N fuel0 st0 qs) i = Some (Ok a) ->
-  (fwd_domain enum excl q -> a = spec_answer enum bounded excl q) /\
+  (fwd_domain enum q -> a = spec_answer enum bounded excl q) /\
   (recurrence_prev_ok enum rprev -> prev_domain enum q -> a = spec_answer enum bounded excl q).
 Proof.
   intros enum complete bounded rnext rprev rvalid excl N fuel0 [H1 [H2 [H3 H4]]] qs i q a Hq Ha.
@@ -136,33 +136,22 @@ Proof.
     + intros e He. specialize (H e He). unfold good in H. now apply negb_false_iff in H.
 Qed.
 
-(* 4. get_stop_point.  The full statement (the stop point is the last
-   non-excluded point of a bounded recurrence) ... *)
-Definition c17_stop_point_is_last_valid : Prop :=
-  forall enum complete bounded excl a,
-  StronglySorted Z.lt enum ->
-  get_stop enum complete bounded excl = Ok a -> a = APt (spec_stop enum bounded excl).
-
-(* ... is FALSE of the code as it stands (finding): when the last two points
-   are excluded, the returned point is the excluded second-last one.  The
-   witness is R5/20000101T00Z/P1D!(20000105T00Z,20000104T00Z) (days 1..5). *)
-Theorem c17_stop_point_is_last_valid_refuted : ~ c17_stop_point_is_last_valid.
-Proof.
-  intros H.
-  specialize (H [1; 2; 3; 4; 5] true true (fun p => (p =? 4) || (p =? 5)) (APt (Some 4))).
-  assert (Hs : StronglySorted Z.lt [1; 2; 3; 4; 5]).
-  { apply strictly_increasing_sound. reflexivity. }
-  specialize (H Hs eq_refl). discriminate H.
-Qed.
-
-(* The restricted statement that does hold (also part of theorem 1 through
-   [fwd_domain]): if the last point or the one before it is not excluded. *)
-Theorem c17_stop_point_restricted : forall enum complete bounded excl a,
-  stop_domain enum excl = true ->
-  get_stop enum complete bounded excl = Ok a -> a = APt (spec_stop enum bounded excl).
+(* 4. get_stop_point is the last non-excluded point of a bounded recurrence,
+   whatever is excluded (None if unbounded).  This was false before /repo
+   commit dde59a5 (the second-last point was returned unchecked when the last
+   one was excluded: R5/20000101T00Z/P1D!(20000105T00Z,20000104T00Z)); the
+   witness stays in the corpus as a regression case. *)
+Theorem c17_stop_point_is_last_valid :
+  forall enum complete bounded excl o,
+  get_stop enum complete bounded excl = Ok o -> o = spec_stop enum bounded excl.
 Proof. exact get_stop_spec. Qed.
 
-(* 5. The assumption on get_prev is necessary (second finding: with month or
+Example c17_ex_stop_trailing_exclusions :
+  get_stop [1; 2; 3; 4; 5] true true (fun p => (p =? 4) || (p =? 5)) = Ok (Some 3) /\
+  get_stop [1] true true (fun p => p =? 1) = Ok None.
+Proof. split; reflexivity. Qed.
+
+(* 5. The assumption on get_prev is necessary (open finding: with month or
    year steps from day 29-31, isodatetime's get_prev(p) = p - step is not the
    previous point of the iteration): a recurrence 31,60,89 (days of year 2000:
    Jan 31, Feb 29, Mar 29) whose get_prev answers 60-31 = 29 -> out of bounds. *)
@@ -230,7 +219,7 @@ Example c17_ex_answers :
 Proof. vm_compute. reflexivity. Qed.
 
 (* 7. The assumption that get_next follows the iteration is necessary for
-   transparency (third finding: month step, start point in another time zone
+   transparency (open finding: month step, start point in another time zone
    than the cycle point time zone: 20000130T1710-0800/P1M seen from +0530
    iterates Jan 31, Mar 1, Mar 30, Apr 30 = days 31, 61, 90, 121, but get_next
    of the re-parsed Mar 1 is Apr 1 = day 92): the answer to
